@@ -39,7 +39,7 @@ pub fn spec() -> CheckSpec {
     CheckSpec {
         id: "C19",
         level: "exploration",
-        rule: "proptest: block-tree plans (forks incl. shorter-but-heavier branches across the epoch-0/1 difficulty change, returns to an already verified branch, uncles, proposals/commits spending varied locks, blocks with a flipped chain-root bit or no extension) built by the reference model with the MODEL's MMR root in every block, delivered in creation order to a real node; the BlockFilter service is started at a generated point and the deliveries continue in generated bursts while it lags. After every delivery: tip = model tip, chain_root_mmr(k).get_root() = model root over header digests 0..=k (k = tip and a sampled k) = root committed by block k+1, gen_proof for a sampled ancestor set verifies with the right leaves and fails with a wrong leaf / against the abandoned branch's root; after every burst (once the builder caught up) every main-chain block's stored GCS filter matches every output and spent-input script hash and filter hashes chain from genesis. Sub-check light-client: the same histories; after every delivery (and additionally right after every delivery that detached a block) generated requests are delivered to the real LightClientProtocol through CKBProtocolHandler::received with a recording protocol context: GetLastState, GetLastStateProof (last_hash = tip / older main-chain block / detached / stored side / unknown / genesis; start number at 0, inside, at the fork point +-3, beyond last, u64::MAX; start hash right / the abandoned branch's block at that height / zero / another block; last_n 0 / 1 / small / 100 / 500 / 501 / 2^62 / u64::MAX; boundary at a block's total difficulty +-1 / 0 / max / above last; difficulties sorted, unsorted, duplicated, at the boundary, at the start, 1001 of them), GetBlocksProof and GetTransactionsProof (hashes on the main chain below or anywhere relative to last, on the abandoned branch, stored side blocks, unknown, duplicated, last itself, 1001 of them; cellbases and transactions committed on both branches), raw bytes and Send* items. Every reply is judged against the model: the named last header is the requested main-chain block (the tip with an empty proof when last_hash is off the main chain), the proved headers are exactly the blocks of a linear-scan restatement of the documented sampling rule / exactly the requested main-chain items with the rest reported missing, every VerifiableHeader carries the model root over the main chain's digests below it (= what the block commits), the MMR proof verifies with the harness's own verifier ((height, leaf index) coordinates, model merge) against the model root below last and not against the rival branch's root, every filtered block's CBMT proof verifies with the harness's own CBMT code against the header's transactions root and names exactly the requested transactions; no request makes the handler panic. A case = (spec variant, plan, filter start, bursts, proof selectors) or (spec variant, plan, request rounds); non-trivial = the history contains a reorg to a shorter chain followed by growth past the old length, or filters were built across a reorg (the service was running / lagging while blocks were detached), or (light-client) a proof request served after a reorg that detached at least one block with the requested last_hash, a requested block or a requested transaction on the abandoned branch, or a proved set that crosses the fork point; distinct by hash of the case.",
+        rule: "proptest: block-tree plans (forks incl. shorter-but-heavier branches across the epoch-0/1 difficulty change, returns to an already verified branch, uncles, proposals/commits spending varied locks, blocks with a flipped chain-root bit or no extension) built by the reference model with the MODEL's MMR root in every block, delivered in creation order to a real node; the BlockFilter service is started at a generated point and the deliveries continue in generated bursts while it lags. After every delivery: tip = model tip, chain_root_mmr(k).get_root() = model root over header digests 0..=k (k = tip and a sampled k) = root committed by block k+1, gen_proof for a sampled ancestor set verifies with the right leaves and fails with a wrong leaf / against the abandoned branch's root; after every burst (once the builder caught up) every main-chain block's stored GCS filter matches every output and spent-input script hash and filter hashes chain from genesis. Sub-check light-client: the same histories; after every delivery (and additionally right after every delivery that detached a block) generated requests are delivered to the real LightClientProtocol through CKBProtocolHandler::received with a recording protocol context: GetLastState, GetLastStateProof (last_hash = tip / older main-chain block / detached / stored side / unknown / genesis; start number at 0, inside, at the fork point +-3, beyond last, u64::MAX; start hash right / the abandoned branch's block at that height / zero / another block; last_n 0 / 1 / small / 100 / 500 / 501 / 2^62 / u64::MAX; boundary at a block's total difficulty +-1 / 0 / max / above last; difficulties sorted, unsorted, duplicated, at the boundary, at the start, 1001 of them), GetBlocksProof and GetTransactionsProof (hashes on the main chain below or anywhere relative to last, on the abandoned branch, stored side blocks, unknown, duplicated, last itself, 1001 of them; cellbases and transactions committed on both branches), raw bytes and Send* items. Every reply is judged against the model: the named last header is the requested main-chain block (the tip with an empty proof when last_hash is off the main chain), the proved headers are exactly the blocks of a linear-scan restatement of the documented sampling rule / exactly the requested main-chain items with the rest reported missing, every VerifiableHeader carries the model root over the main chain's digests below it (= what the block commits), the MMR proof verifies with the harness's own verifier ((height, leaf index) coordinates, model merge) against the model root below last and not against the rival branch's root, every filtered block's CBMT proof verifies with the harness's own CBMT code against the header's transactions root and names exactly the requested transactions; no request makes the handler panic. Sub-check filter-protocol: the same histories with the BlockFilter service started at a generated point and waited for in generated bursts; after every delivery (the builder may be behind the tip), additionally right after every delivery that detached a block, and after every wait for the builder, generated messages are delivered to the real ckb_sync::BlockFilter protocol handler through CKBProtocolHandler::received with a recording protocol context: GetBlockFilters / GetBlockFilterHashes / GetBlockFilterCheckPoints with start_number 0 / 1 / anywhere <= tip / tip-2..tip+2 / the fork point of the latest reorg +-3 / the latest built block +-2 / beyond the tip / any u64 / u64::MAX - {0,1,999,1000,1999,2000,any u16}, the three reply kinds sent as requests, requests with a byte cut or appended or an unknown union item, raw bytes; plus one fixed linear chain of 2010 (thorough 4010) blocks whose requests sit at the batch-size and check-point-interval boundaries. Every reply is judged against the model: it is the kind that answers the request and names the start number asked for; block_hashes are the main chain's blocks start, start+1, .. in order (a detached / side / unknown hash is reported as such); every filter is byte-identical to the stored one and matches, by the harness's GCS decoding, the hash of every lock and type script of the model block's outputs and spent inputs; parent_block_filter_hash and every filter hash equal blake2b(parent filter hash || blake2b(filter)) chained by the harness from the zero hash along the main chain; check points are those hashes at start, start+2000, ..; the number of items lies between what was built for the main chain from start before the request and after it, capped by the documented batch size (1000 / 2000 / 2000); a start number above every latest-built marker (snapshot, live store before and after) is not answered; a start number at or below the latest built main-chain block the handler can see is answered; reply kinds and malformed bytes are never answered, malformed bytes are banned; nothing makes the handler panic. A case = (spec variant, plan, filter start, bursts, proof selectors) or (spec variant, plan, request rounds) or (spec variant, plan, filter start, bursts, request rounds); non-trivial = the history contains a reorg to a shorter chain followed by growth past the old length, or filters were built across a reorg (the service was running / lagging while blocks were detached), or (light-client) a proof request served after a reorg that detached at least one block with the requested last_hash, a requested block or a requested transaction on the abandoned branch, or a proved set that crosses the fork point, or (filter-protocol) a non-empty reply served after a reorg that detached a block at or above the requested start number and speaking about a height at which the abandoned branch had a block of its own; distinct by hash of the case.",
         assumptions: &[
             "blocks are delivered synchronously in creation order (parents first); delivery orders are C01's subject",
             "the filter builder is woken by re-sending the new-block notification when it lags (a lost wake-up only delays it until the next block); a builder that does not catch up within the time-out is inconclusive, not a violation",
@@ -47,7 +47,9 @@ pub fn spec() -> CheckSpec {
             "light-client: requests are delivered one at a time from the check's thread between block deliveries; the handler takes one snapshot to choose the blocks and a second one in reply_proof to build the proof, a reorg committing between the two is not explored (no deterministic way to place it without a hook)",
             "light-client: a well-formed request naming main-chain blocks / transactions at or above last_hash (which the chain root of last cannot prove) may stay unanswered; a request the handler documents as invalid may be refused with or without a ban; whatever is answered must be sound",
             "light-client: the sampling rule is the one of the handler's doc comments and RFC 0044 restated as a linear scan (first block whose total difficulty reaches each difficulty below the boundary block, then every block from the boundary block / the last n blocks, preceded by the last n blocks before start when start_hash is not the main chain's block at start_number)",
-            "the block-filter protocol handlers of ckb-sync (GetBlockFilters / Hashes / CheckPoints) are not driven; the store records they serve are checked by the history families",
+            "filter-protocol: requests are delivered one at a time from the check's thread between block deliveries (the main chain does not change while a request is served; the filter builder may run); what was built is read from the store before and after each request and the reply has to lie between the two",
+            "filter-protocol: the handler reads the latest-built marker through the chain snapshot (taken when the tip last changed) and maps it to a number through the main-chain index: a reply is owed only for start numbers at or below that block while it is on the main chain (otherwise only for start 0); an unanswered request above it is not judged, an answered one is judged in full; a GetBlockFilterHashes whose parent block has no filter hash yet may stay unanswered",
+            "filter-protocol: filters of these histories are far below the 1.8 MB frame limit of GetBlockFilters, the size cut is not reached; check points beyond the first and full batches are reached by the fixed long chain only",
         ],
         workers: |_| 8,
         watchdog_s: |t| t.pick(1500, 7200),
@@ -192,7 +194,7 @@ fn leaf_pos(i: u64) -> u64 {
     2 * i - i.count_ones() as u64
 }
 
-fn b256(parts: &[&[u8]]) -> [u8; 32] {
+pub(crate) fn b256(parts: &[&[u8]]) -> [u8; 32] {
     let mut hasher = ckb_hash::new_blake2b();
     for p in parts {
         hasher.update(p);
@@ -203,7 +205,7 @@ fn b256(parts: &[&[u8]]) -> [u8; 32] {
 }
 
 /// what a block's filter has to match: (description, element)
-fn expected_filter_elements(tree: &Tree, b: &MBlock) -> Result<Vec<(String, [u8; 32])>, String> {
+pub(crate) fn expected_filter_elements(tree: &Tree, b: &MBlock) -> Result<Vec<(String, [u8; 32])>, String> {
     let empty = ChainState::default();
     let parent_state: &ChainState = if b.number == 0 { &empty } else { &tree.get(&b.parent).state };
     let mut created: BTreeMap<CellKey, packed::CellOutput> = BTreeMap::new();
@@ -234,7 +236,7 @@ fn expected_filter_elements(tree: &Tree, b: &MBlock) -> Result<Vec<(String, [u8;
     Ok(out)
 }
 
-fn gcs_matches(data: &[u8], element: &[u8]) -> bool {
+pub(crate) fn gcs_matches(data: &[u8], element: &[u8]) -> bool {
     let reader = GCSFilterReader::new(SipHasher24Builder::new(0, 0), M, P);
     let mut input = std::io::Cursor::new(data.to_vec());
     reader
@@ -245,7 +247,7 @@ fn gcs_matches(data: &[u8], element: &[u8]) -> bool {
 /// The chain service scans the store for blocks left unverified by the previous run on a thread
 /// of its own; a block delivered (and failing) while that scan runs races with it (recorded as a
 /// side finding, not this property's subject).  Wait for the scan like the repository's tests do.
-fn wait_started(node: &Node) -> Verdict {
+pub(crate) fn wait_started(node: &Node) -> Verdict {
     let start = std::time::Instant::now();
     while node.chain().is_verifying_unverified_blocks_on_startup() {
         node_panic_violation()?;
@@ -257,13 +259,13 @@ fn wait_started(node: &Node) -> Verdict {
     Ok(())
 }
 
-struct Reorg {
-    detached: u64,
-    attached: u64,
-    old_tip: H,
+pub(crate) struct Reorg {
+    pub(crate) detached: u64,
+    pub(crate) attached: u64,
+    pub(crate) old_tip: H,
 }
 
-fn classify(tree: &Tree, old: &H, new: &H) -> Reorg {
+pub(crate) fn classify(tree: &Tree, old: &H, new: &H) -> Reorg {
     let mut a = tree.get(old);
     let nb = tree.get(new);
     let mut detached = 0;
@@ -292,7 +294,7 @@ struct Facts {
     max_detached: u64,
 }
 
-fn wait_filters(node: &Node, tree: &Tree, tip: &H, st: &mut Stats) -> Verdict {
+pub(crate) fn wait_filters(node: &Node, tree: &Tree, tip: &H, st: &mut Stats) -> Verdict {
     let start = Instant::now();
     let tipb = tree.get(tip).block.clone();
     let mut nudged = false;
@@ -329,7 +331,7 @@ fn wait_filters(node: &Node, tree: &Tree, tip: &H, st: &mut Stats) -> Verdict {
 /// hash and never rewritten); `detached_unconfirmed`: blocks that were detached from the main chain
 /// while the service was running and before their filter had been confirmed — the structural
 /// trigger of the known "filter built for a block that is no longer on the main chain" finding.
-fn filter_oracle(
+pub(crate) fn filter_oracle(
     node: &Node,
     tree: &Tree,
     tip: &H,
@@ -789,6 +791,16 @@ fn run(ctx: &Ctx) {
     if want("light-client") {
         ctx.run_prop("light-client", cases, crate::c19_lc::case_strategy(max_blocks), crate::c19_lc::prop);
     }
+    // filter-protocol: few cases (every case is a node life with the filter service and several
+    // waits for the builder), plus one fixed long linear chain that reaches the batch sizes and the
+    // check point interval (worker 0)
+    let cases = ctx.cases(200, 3000);
+    if want("filter-protocol") {
+        ctx.run_prop("filter-protocol", cases, crate::c19_filter::case_strategy(max_blocks), crate::c19_filter::prop);
+        if ctx.worker == 0 {
+            ctx.run_case("filter-protocol", &crate::c19_filter::long_case(ctx.tier.pick(2010, 4010)), crate::c19_filter::prop);
+        }
+    }
 }
 
 fn replay(ctx: &Ctx, sub: &str, v: &Value) -> Verdict {
@@ -796,6 +808,11 @@ fn replay(ctx: &Ctx, sub: &str, v: &Value) -> Verdict {
         let c: crate::c19_lc::Case = from_case(v)?;
         let mut st = ctx.stats.borrow_mut();
         return crate::c19_lc::prop(&c, &mut st);
+    }
+    if sub == "filter-protocol" {
+        let c: crate::c19_filter::Case = from_case(v)?;
+        let mut st = ctx.stats.borrow_mut();
+        return crate::c19_filter::prop(&c, &mut st);
     }
     let c: Case = from_case(v)?;
     let mut st = ctx.stats.borrow_mut();
